@@ -77,8 +77,8 @@ def run_group(case, scratch=None, keep=False):
 
 def scan_reference(tree_root, case):
     """Reference list of scanned files for *simple* trees: every regular file (and, with -S, every
-    symlink whose target is a regular file) at or below the given roots; no hidden files, no ignore
-    files, no depth limits (those belong to C09's own reference walk).
+    symlink whose target is a regular file) at or below the given roots (within --depth, if given: a file is selected
+    if SOME root reaches it within the limit); no hidden files, no ignore files (those belong to C09's reference walk).
     Returns {abs path (str): {"dev","ino","len","data"(bytes),"root": index of first root holding it}}."""
     args = case.get("args", [])
     report_links = "-S" in args or "--symbolic-links" in args
@@ -112,10 +112,17 @@ def scan_reference(tree_root, case):
             files[p] = {"dev": st.st_dev, "ino": st.st_ino, "len": st.st_size, "data": C.read_file(p), "root": ri,
                         "is_link": stat.S_ISLNK(lst.st_mode)}
 
+    depth = flag_value(args, "--depth")
+    depth = int(depth) if depth is not None else None
     for ri, r in enumerate(roots):
         if os.path.isdir(r):
             for dp, dns, fns in os.walk(r):
                 dns.sort()
+                level = 0 if dp == r else dp[len(r):].strip("/").count("/") + 1    # level of this directory below the root
+                if depth is not None and level + 1 > depth:
+                    # --depth N: files directly inside an input directory are at depth 1
+                    dns[:] = []
+                    continue
                 for fn in sorted(fns):
                     add(os.path.join(dp, fn), ri)
         else:
